@@ -41,12 +41,17 @@ HostileOf(i) == LET cl == SelectSeq(CSeq, LAMBDA c : c \in ClassesOf(Cat[i][3]))
 \* 6: a world with stakes 40/24/24/12: a delivery is reported, only validator 0 (40 %) provides evidence; whom the pruning of that
 \*    message may jail (25 % protection of valset.Jail) depends on the order in which the silent validators are taken
 Uneven == << <<"execjob", "deployuser">>, <<"sign">>, <<"estimate">>, <<"sign">>, <<"relayerr">>, <<"attest0">>, <<"status">>, <<"execjob">> >>
-NScn == Len(Scn) + 2
-ScnLen(s) == IF s <= Len(Scn) THEN Len(Scn[s]) ELSE IF s = Len(Scn) + 1 THEN Len(StatusIdx) ELSE Len(Uneven)
-ScnTxs(s, k) == IF s <= Len(Scn) THEN Scn[s][k] ELSE IF s = Len(Scn) + 1 THEN <<"status">> ELSE Uneven[k]
+\* 7: a world whose genesis time is anchored to the real clock: the valset published on the chains becomes 30 days old IN WALL-CLOCK
+\*    TERMS between the reference run and the perturbed twin, while in block time it is minutes old; a delegation makes the snapshot
+\*    of height 300 worth publishing. Whatever measures the age with the process clock decides differently in the two twins.
+\*    Executed once (its only perturbation is the real clock).
+Clock == << <<"delegate">>, <<>>, <<>>, <<>>, <<>>, <<>>, <<>>, <<>>, <<>>, <<>>, <<"sign">>, <<"estimate">> >>
+NScn == Len(Scn) + 3
+ScnLen(s) == IF s <= Len(Scn) THEN Len(Scn[s]) ELSE IF s = Len(Scn) + 1 THEN Len(StatusIdx) ELSE IF s = Len(Scn) + 2 THEN Len(Uneven) ELSE Len(Clock)
+ScnTxs(s, k) == IF s <= Len(Scn) THEN Scn[s][k] ELSE IF s = Len(Scn) + 1 THEN <<"status">> ELSE IF s = Len(Scn) + 2 THEN Uneven[k] ELSE Clock[k]
 ScnHostile(s, k) == IF s = Len(Scn) + 1 THEN HostileOf(StatusIdx[k]) ELSE <<>>
-WorldOf(s) == IF s = Len(Scn) + 2 THEN "uneven" ELSE "std"
-Start == <<280, 290, 280, 296, 280, 280>>
+WorldOf(s) == IF s = Len(Scn) + 2 THEN "uneven" ELSE IF s = Len(Scn) + 3 THEN "clock" ELSE "std"
+Start == <<280, 290, 280, 296, 280, 280, 290>>
 
 StepOf(l) == CASE l.act = "Restart"  -> [act |-> "Restart", args |-> [n |-> 0]]
                [] l.act = "Query"    -> [act |-> "Query", args |-> [k |-> l.arg]]
@@ -67,7 +72,7 @@ GBlock == /\ pos < ScnLen(scn)
           /\ Block(TplSeq(ScnTxs(scn, pos + 1)) \o ScnHostile(scn, pos + 1))
           /\ pos' = pos + 1 /\ hist' = Append(hist, [act |-> "Block", args |-> [txs |-> ScnTxs(scn, pos + 1), hostile |-> ScnHostile(scn, pos + 1)]])
           /\ UNCHANGED <<scn, npert, turn>>
-GPert == /\ npert < MaxPert /\ GPerturb
+GPert == /\ npert < MaxPert /\ WorldOf(scn) # "clock" /\ GPerturb
          /\ npert' = npert + 1 /\ hist' = Append(hist, StepOf(last'))
          /\ UNCHANGED <<scn, pos, turn>>
 GNextC == (IF pos = ScnLen(scn) THEN PrintT(<<"HIST", ToJson(hist)>>) ELSE TRUE) /\ (GBlock \/ GPert)
